@@ -28,7 +28,6 @@ func TestC15Binary(t *testing.T) {
 	os.Setenv("VERIF_BINARY_RACE", "1")
 	p := startPool(t)
 	defer p.stop()
-	defer os.Remove(binPath)
 	rapid.Check(t, func(rt *rapid.T) {
 		var hist []string
 		fail := func(f string, a ...interface{}) {
